@@ -39,10 +39,19 @@ def whole_run(spec):
             out[n] = hp.window_whole(F[n], f0, a, *p["window"])
         elif t == "group":
             out[n] = hp.group_whole(F[n], f0, a, p["gap"])
+        elif t == "mwindow":
+            wa = hp.window_whole(F[n + "a"], f0, a, *p["window"])
+            out[n + "a"] = wa
+            b = wa[wa[F[n + "a"]] % 2 == 0]
+            out[n + "b"] = hp.out_arr(F[n + "b"], b["time"], b["endtime"], b[F[n + "a"]])
         elif t == "down":
             out[n] = hp.out_arr(F[n], a["time"], a["endtime"], a[f0] + 2)
         elif t == "exhaust":
             out[n] = hp.out_arr(F[n], a["time"], a["endtime"], a[f0] + 1000 * len(a))
+        elif t == "gather":
+            kinds = hp.kinds_of(spec)
+            same = [dd for dd in deps if kinds[dd] == kinds[deps[0]]]
+            out[n] = hp.out_arr(F[n], a["time"], a["endtime"], sum(out[dd][F[dd]] for dd in same))
         else:
             raise ValueError(t)
     return out
